@@ -3,16 +3,51 @@
   Model: WD.Obs (the same transition system as C04/C05: client threads, the dispatcher, scripted emitter
   threads, the observer's re-entrant lock, callbacks calling the API).
 
-  What is proved here are the LOCAL facts the global property is made of — about every state and every thread of
-  the model, reachable or not: what each blocking call waits for, and that the threads it waits for can always
-  run and end.  The global statements (no reachable state in which a call is blocked forever; after stop() and
-  join() have returned no library thread is left) are `_partial` in the strict sense: they are not theorems
-  here; they are decided on the real BaseObserver for every explored schedule (all schedules within a
-  preemption bound + random ones, each replayed step by step in this model), see DESIGN.md §4 C06.
+  GLOBAL (no deadlock): `no_deadlock` / `blocked_call_proceeds` — for every program (client scripts, callback
+  scripts, emitter scripts), every schedule all of whose steps complete (`runOk`) and at most one dispatcher
+  thread, a state in which nothing can run has every thread ended or in one of the three idle waits (join() on a
+  live observer, the dispatcher's queue.get(), an emitter's wait for its stop flag): nobody is left waiting for the
+  observer's lock or inside emitter.join().  Proved with two invariants kept along every run: the lock discipline
+  `LQ` (C05) and the waits-for invariant `GQ` (Proofs/Observer/GInv.lean: emitter threads are at emitter pcs and are
+  the threads their objects point to; an emitter that is being joined has its stop flag set; a thread running a
+  callback is only ever left at a pc that can run or at a join of a stopped emitter).
+  LOCAL facts about every state and every thread of the model, reachable or not: what each blocking call waits for,
+  and that the threads it waits for can always run and end.
+  NOT a theorem here (`_partial` in the strict sense): after stop() and join() have returned no library thread is
+  left — decided on the real BaseObserver for every explored schedule, see DESIGN.md §4 C06.
 -/
 import WD.Proofs.Observer
+import WD.Proofs.Observer.GStep
 namespace WD.C06
-open WD.Obs
+open WD.Obs WD.ProofsObs
+
+/-- C06, no deadlock (global): along every schedule whose steps complete, for every program, with at most one
+    dispatcher thread: when nothing can run, every thread has ended or is in an idle wait (`join()`, the dispatcher's
+    `queue.get()`, an emitter's stop-flag wait) — no thread is stuck at the observer's lock or inside `emitter.join()` -/
+theorem no_deadlock (clients : List (List Op)) (cbs : List (Hid × List (List Op))) (emit : List (Wid × List Nat))
+    (sched : List Nat) (hok : runOk (init clients cbs emit) sched = true)
+    (hone : ((run (init clients cbs emit) sched).threads.filter (fun t => t.kind == .dispatcher)).length ≤ 1)
+    (hq : Quiescent (run (init clients cbs emit) sched)) (ti : Nat) (t : Thread)
+    (ht : (run (init clients cbs emit) sched).thread? ti = some t) : idlePc t.pc = true := by
+  obtain ⟨hL, hG⟩ := lgq_reach clients cbs emit sched hok
+  exact quiescent_idle hL hG (not_twoD_of_oneD (oneD_of_count hone)) hq ti t ht
+
+/-- the same as a progress statement: whenever some thread is waiting for the lock or for an emitter to end (or is at
+    any other point of an API call), some thread can take a step -/
+theorem blocked_call_proceeds (clients : List (List Op)) (cbs : List (Hid × List (List Op))) (emit : List (Wid × List Nat))
+    (sched : List Nat) (hok : runOk (init clients cbs emit) sched = true)
+    (hone : ((run (init clients cbs emit) sched).threads.filter (fun t => t.kind == .dispatcher)).length ≤ 1)
+    (ti : Nat) (t : Thread) (ht : (run (init clients cbs emit) sched).thread? ti = some t) (hb : idlePc t.pc = false) :
+    ∃ tj, enabled (run (init clients cbs emit) sched) tj = true := by
+  apply Classical.byContradiction
+  intro hne
+  have hq : Quiescent (run (init clients cbs emit) sched) := by
+    intro tj
+    cases he : enabled (run (init clients cbs emit) sched) tj with
+    | false => rfl
+    | true => exact absurd ⟨tj, he⟩ hne
+  have := no_deadlock clients cbs emit sched hok hone hq ti t ht
+  rw [hb] at this; cases this
 
 /-- `observer.join()` returns only once the dispatcher thread has ended -/
 theorem join_waits_for_dispatcher (s : State) (ti d : Nat) (t : Thread)
@@ -90,5 +125,13 @@ example :
     let s := run (init [[.schedule 0 0 0, .start, .stop, .schedule 0 1 0, .join]] [] [(0, [1]), (1, [2])])
       [0, 0, 0, 0, 0, 1, 0, 0, 2, 0]
     s.threads.all (fun t => t.pc == .done) = true ∧ s.threads.length = 3 := by decide +kernel
+
+/-- non-vacuity of `no_deadlock`: a handler that unschedules its own watch from inside the callback while a client calls
+    stop(): the run is complete (`runOk`), one dispatcher, and the final state is quiescent with every thread ended -/
+example :
+    let s0 := init [[.schedule 0 0 0, .start, .stop, .join]] [(0, [[.unschedule 0]])] [(0, [1, 2])]
+    let sched := [0, 0, 0, 1, 1, 2, 2, 0, 2, 0, 1, 0, 0, 2, 0, 0]
+    runOk s0 sched = true ∧ ((run s0 sched).threads.filter (fun t => t.kind == .dispatcher)).length ≤ 1 ∧
+    (List.range (run s0 sched).threads.length).all (fun ti => !enabled (run s0 sched) ti) = true := by decide +kernel
 
 end WD.C06
